@@ -1,15 +1,32 @@
 /-
 C08 — property theorems (only). Model: `HydroVerif/Model/C08.lean`; vocabulary and loop invariants:
-`HydroVerif/Lemmas/C08.lean`.
+`HydroVerif/Lemmas/C08.lean`. Every theorem is followed by an `example` applying it to (or evaluating the model on) a
+concrete non-trivial input over ℚ, so no hypothesis is vacuous. Every model function named below runs in the driver
+and is compared with the real code (`agg`, `aggw`, `homog`, `homogw`, `aggindex`, `m2d` requests of harness/c08.py).
 
-Vocabulary used in the statements (all defined in `Lemmas/C08.lean`, independent of the kernels' loops):
+Vocabulary used in the statements (defined in `Lemmas/C08.lean`, independent of the kernels' loops):
 * `keys l`        the distinct index values in order of first appearance (`eraseDups` of the index column);
 * `groupOf l k`   the inputs whose index is `k`, in order (`filter`);
 * `vals g`, `nmiss g`  the non-missing values / the number of missing values of a group;
 * `reduce op maxnan g` `none` (NaN) when `nmiss g > maxnan`, else `red op (vals g)` with
   `red 0 = sum`, `red 1 = sum / length`, `red 2 = List.maximum`, `red 3 = getLast` (0 for an empty list);
 * `cell maxnan g x`    what flathomogen writes at an entry `x` of group `g`.
-All theorems hold for every ordered field `α` (ℚ, ℝ, …), every list length, every operator / `maxnan` stated.
+Field theorems hold for every ordered field `α` (ℚ, ℝ, …); `_any_carrier` theorems assume no arithmetic law at all.
+
+Clause → theorems → what stays outside
+| clause of the property | theorems | outside (trusted / compared only) |
+|---|---|---|
+| non-decreasing index, any input: one value per distinct index value, in order | `aggregate_spec`, `keys_strictly_increasing`, `mem_keys`, `aggregate_length`, `groups_partition`, `aggregate_per_group(_any_carrier)`, `aggregate_ok_iff`; through the wrapper `aggregateW_eq_aggregate`, `aggregateW_spec`, `wrap32_id`; from time stamps `aggIndex_nondecreasing`, `aggregateW_on_time_index` | Cython/ctypes boundary, numpy `astype` (compared bit-exact) |
+| … equal to the sum, mean, maximum or last value of the non-missing inputs of the group | `aggregate_spec` + `red_sum_spec`, `red_mean_spec`, `red_max_spec`, `red_last_spec`; `flush_tail_any_carrier` | IEEE rounding of sum / mean; all-missing groups reduce to 0 (only the sum is constrained there) |
+| … or NaN when the group holds more than maxnan missing values; maxnan 0 … beyond the length | `reduce_eq_none_iff`, `flush_isNone_any_carrier`, `aggregate_never_nan_of_maxnan_ge_length`, `aggregate_all_nan_of_negative_maxnan` | — |
+| operators 0..3 | `aggregate_spec`; outside the range: `aggregate_negative_operator_is_sum`, `aggregate_operator_above_3_is_zero`, `wrappers_reject_non_int32_arguments` | codes outside 0..3 accepted by the code, not constrained |
+| flathomogen: non-missing ↦ group mean, missing kept | `flathomogen_spec`, `flathomogen_pointwise`, `flathomogen_per_group_any_carrier`, `flathomogenW_eq_flathomogen`, `flathomogen_ok_iff` | rounding; groups beyond maxnan are all-NaN (text silent) |
+| aggregated sums add up to the sum of the inputs | `aggregate_sum_conserved`, `aggregate_sum_conserved_general`, `aggregate_sum_conserved_of_maxnan_ge` | rounding |
+| flathomogen preserves each group's total | `flathomogen_group_total` | rounding |
+| monthly2daily (flat or cubic): one value per calendar day, monthly sums = inputs | `m2d_spec`, `m2dFlat_spec`, `flatMonth_spec`, `m2dCubic_spec`, `cubicMonth_spec`; calendar `ndaysAt_range`, `monthAt_zero`, `monthAt_succ`, `days_in_year`, `isLeap_iff` | pandas date arithmetic (compared on every series; oracle uses python `calendar`), `np.dot`/`polyval` rounding |
+| a decreasing index is rejected with an error | `aggregate_rejects_decreasing`, `flathomogen_rejects_decreasing`, `*_ok_iff`, `not_sorted_iff_adjacent_decrease`, `*_rejects_decreasing_any_carrier` | code → ValueError translation (compared) |
+| glue outside the quantifier | `wrappers_reject_length_mismatch`, `kernels_reject_empty`, `wrap32_range`, `parseStep_accepts`, `aggIndex_mono`, `aggIndex_*_eq_iff`, `aggIndex_ASm`, `aggIndex_fits_int32`, `m2d_rejects_other_interpolation` | float index truncation, list / Series / 2-D inputs not modelled |
+Nothing is left as `_statement` / `_partial`.
 -/
 import HydroVerif.Lemmas.C08
 import Mathlib.Algebra.Order.Field.Rat
